@@ -38,21 +38,26 @@ def retry_run(sc, rs, tier, seed):
                 return False
         return True
 
-    kept = []
-    dropped = 0
-    for d in r.disagreements:
-        if d.get("first_diff_line", -1) < 0 or persists(d["ops"], False):
-            kept.append(d)
-        else:
-            dropped += 1
-    r.disagreements = kept
-    kept = []
-    for o in r.oracle_failures:
-        if persists(o["ops"], True):
-            kept.append(o)
-        else:
-            dropped += 1
-    r.oracle_failures = kept
+    import re
+    from concurrent.futures import ThreadPoolExecutor
+    known = core.load_known().get("findings", [])
+
+    def is_known(o):
+        # failures that are listed known findings are deterministic by construction: no need to re-run them
+        def one(rep):
+            m = re.search(r"oracle=(\S+)", rep)
+            name = m.group(1) if m else "?"
+            return any(k.get("oracle") == name and re.search(k.get("signature", "$^"), rep) for k in known)
+        return all(one(rep) for rep in o["reports"])
+
+    dis = [(d, d.get("first_diff_line", -1) >= 0) for d in r.disagreements]
+    ora = [(o, not is_known(o)) for o in r.oracle_failures]
+    with ThreadPoolExecutor(max_workers=max(2, core.NCPU)) as ex:
+        dres = list(ex.map(lambda t: (not t[1]) or persists(t[0]["ops"], False), dis))
+        ores = list(ex.map(lambda t: (not t[1]) or persists(t[0]["ops"], True), ora))
+    dropped = dres.count(False) + ores.count(False)
+    r.disagreements = [d for (d, _), keep in zip(dis, dres) if keep]
+    r.oracle_failures = [o for (o, _), keep in zip(ora, ores) if keep]
     r.stats.setdefault("retry", {})["transient_failures_dropped"] = dropped
     return r
 
@@ -60,7 +65,40 @@ def retry_run(sc, rs, tier, seed):
 DL_RUN = {"harness": "hdeadline", "driver": "dldrv", "fields": ["st", "post", "overdue"], "custom": retry_run,
           "quick": {"n": 40, "shards": 12}, "thorough": {"n": 96, "shards": 24}}
 
+STOP_RUN = {"harness": "hstop", "driver": "stopdrv", "fields": ["stop", "opens", "closes"] + ["c%d" % i for i in range(64)],
+            "custom": retry_run, "quick": {"n": 30, "shards": 12}, "thorough": {"n": 120, "shards": 24}}
+
 PROPS = {
+    "C18": {
+        "manifest": {
+            "text": "Lean theorems on the Stop model (M4+Stop: addConn's three separate statements, dials, transferred conns, closes "
+                    "by anyone, the Async FIFO, Stop's step sequence with the table scanned slot by slot) over every "
+                    "interleaving: wait-group = 1 + opens - finished close callbacks and never negative, close callback exactly "
+                    "once, every conn in the table at the snapshot is closed and notified before Wait returns, every internal "
+                    "step decreases a measure, Stop is never stuck unless a registration raced the snapshot "
+                    "(c18_stop_progress_partial; full strength refuted by c18_stop_progress_counterexample = defect #11); tied to "
+                    "the code by gated scenarios on real engines compared state by state with the model, plus real-socket "
+                    "Stop/Shutdown runs under a watchdog with close-count, goroutine and descriptor census",
+            "note": "proof on the model, partial: termination is proved in safety form (progress + measure) under fair scheduling "
+                    "and only without registrations racing the snapshot (known finding C18-onopen-outlives-snapshot); release of "
+                    "poller/listener/executor goroutines and of descriptors is measured (one-sided census with settle time), "
+                    "not proved; the HTTP engine is checked by connection closure seen from the clients, its own close "
+                    "notifications are not required at Stop return",
+            "technique": "Lean 4 proof (two invariants + termination measure over a transition system) + differential "
+                         "correspondence with gated callbacks + real-engine runs under a watchdog"},
+        "lean": ["NbioVerif.Properties.C18"], "drivers": ["stopdrv"], "harness": ["hstop"],
+        "runs": [STOP_RUN],
+        "oracles": ["c18-"],
+        "rule": "sim case = op sequence (add, gated new/release, close, eof, hold/release of the close callback, stop) on a "
+                "real engine with virtual descriptors, compared with the model after every op; real case = engine config "
+                "(core/http, epoll mode, I/O mode, pollers, listeners) x activity mix (accepts, dials, backlogs, timers, "
+                "concurrent closers) x stop|shutdown; distinct by hash of (config, op sequence, final state); non-trivial iff "
+                ">= 1 conn existed",
+        "assumptions": ["the Async queue is used through its specification (FIFO, exactly once: JobQ instance, C05/C19)",
+                        "user handlers closing the conn inside OnOpen are outside the model (lifecycle, C03)",
+                        "goroutine/descriptor release: runtime facts, measured with a settle time of up to 5 s",
+                        "fair scheduling of the engine's own goroutines (acceptor continuation, Async drainer, pollers)"],
+    },
     "C16": {
         "manifest": {
             "text": "Lean theorems on the Deadline model M8 (logical clock, per-direction timer, two-step fire so that a renewal "
